@@ -329,7 +329,7 @@ def footprint(W, a, args):
     for e in act["eff"]:
         if e[0] == "when":
             pos, neg = set(), set()
-            _reads(e[1], b, pos, neg, fp["cond_fl"])
+            _reads(e[1], b, pos, neg, fp["cond_fl"], W)
             fp["cond_atoms"] |= pos | neg
             simple(e[2], b)
         elif e[0] == "forall":
@@ -337,7 +337,7 @@ def footprint(W, a, args):
                 if interp.is_sub(W.D["types"], ty, e[2]):
                     bb = {**b, e[1]: o}
                     pos, neg = set(), set()
-                    _reads(e[3][1], bb, pos, neg, fp["fa_fl"])
+                    _reads(e[3][1], bb, pos, neg, fp["fa_fl"], W)
                     fp["fa_atoms"] |= pos | neg
                     simple(e[3][2], bb, "fa_")
     return fp
